@@ -161,14 +161,14 @@ def run(ctx):
     dbl = sum(1 for s in done for o in s["ops"] if s["kind"] == "qubit" and o[0] in ("swap", "cx") and o[1] == o[2]
               and 0 <= o[1] < s["n"])
     panics = sum(1 for s in done if s["expect"] and s["expect"][-1][0] == "panic")
-    nontrivial = sum(1 for s in done if any(o[0] != "get" for o in s["ops"]) or s["term"] != "none")
+    nontrivial = sum(1 for s in done if any(e[0] == "ok" for e in s["expect"]))
     rnd = random.Random(ctx.seed)
     ctx.coverage.update({
         "traces_validated_against_impl": len(done),
         "evaluations": sum(len(s["expect"]) for s in done),
         "distinct_nontrivial": nontrivial,
         "rule": "distinct (element kind, n, operation script with runtime indices, observer) replayed on the compiled "
-                "code with the full event stream compared; non-trivial = contains a write/lend or reaches an observer",
+                "code with the full event stream compared; non-trivial = at least one write / lend completes before the observer or the panic",
         "samples": [{"script": ca.show(s), "expect": s["expect"]} for s in rnd.sample(done, min(4, len(done)))],
         "exhaustive": True,
         "exhaustive_scope": ("all scripts with <= 2 operations for n in 1..3" + ("" if ctx.quick else
